@@ -1,12 +1,271 @@
-/-! Model for property C09 (core-only: no Mathlib import, so the driver links). -/
+import OnetVerif.Model.Util
+import OnetVerif.Generated
+/-! Model for property C09 — peer failures are contained, reported to senders, and recoverable
+(core-only).
+
+The surviving router and its environment:
+
+* `network/router.go:286-355` `Send`: first registered connection of the destination, else
+  `connect`; for every message one `c.Send`, on error one `connect` + one more `c.Send`.
+* `network/router.go:359-381` `connect`, `network/tcp.go:93-116` / `network/local.go:244-256,
+  500-520`: a connect dials up to `MaxRetryConnect` times on TCP and `MaxRetryConnect²` times on the
+  in-memory transport.
+* `network/router.go:383-403, 415-484, 628-633`: the receive loop that sees a connection fail fires
+  every registered error handler with the peer's identity and removes exactly that connection
+  (swap-with-last removal inside the peer's slice).
+* the send entry points offered to services and protocols and how each hands the error on:
+  `context.go:60-68`, `overlay.go:602-636`, `treenode.go:150-176, 764-847`.
+
+Wall-clock time is not modelled: a dial attempt is a step.
+-/
 namespace C09
 
+abbrev Peer := Nat
+
+inductive Transport where
+  | tcp | loc
+  deriving DecidableEq, Repr
+
+/-- dial attempts of one `host.Connect` whose every attempt fails: `NewTCPConn` loops
+`MaxRetryConnect` times; `LocalHost.Connect` loops `MaxRetryConnect` times over
+`NewLocalConnWithManager`, which loops `MaxRetryConnect` times itself. -/
+def dialsPerConnect (M : Nat) : Transport → Nat
+  | .tcp => M
+  | .loc => M * M
+
+/-- a registered connection: its number, the peer, and whether the other end still exists
+(`alive = false`: the peer is gone but the receive loop has not reported it yet — a stale entry) -/
+structure Conn where
+  id : Nat
+  peer : Peer
+  alive : Bool
+  deriving DecidableEq, Repr
+
+structure St where
+  /-- maximal number of dial attempts per connect on this transport -/
+  dpc : Nat := 5
+  /-- `r.connections`, all peers' slices in one list; the relative order of one peer's entries is
+  the order of its slice -/
+  conns : List Conn := []
+  next : Nat := 0
+  /-- peers at whose address something listens -/
+  up : List Peer := []
+  /-- `connectionErrorHandlers` -/
+  handlers : List Nat := []
+  /-- ghost: messages handed to a live peer, per peer incarnation irrelevant -/
+  delivered : List (Peer × Nat) := []
+  /-- ghost: error-handler invocations (handler, peer it was told about) -/
+  calls : List (Nat × Peer) := []
+  /-- ghost: dial attempts so far -/
+  dials : Nat := 0
+  deriving DecidableEq, Repr
+
+/-- `r.connection(id)`: the first registered connection of that peer -/
+def firstConn (s : St) (p : Peer) : Option Conn := s.conns.find? (·.peer == p)
+
+/-- `r.connect(si)`: dial (all attempts fail iff nothing listens), send the own identity, register,
+launch the receive loop. -/
+def connect (s : St) (p : Peer) : St × Option Conn :=
+  if s.up.contains p then
+    let c : Conn := { id := s.next, peer := p, alive := true }
+    ({ s with conns := s.conns ++ [c], next := s.next + 1, dials := s.dials + 1 }, some c)
+  else ({ s with dials := s.dials + s.dpc }, none)
+
+/-- `c.Send(msg)`. On a stale connection the write fails — or, on TCP, may be accepted by the local
+kernel before the reset arrives (`staleOk`, chosen by the environment; the message is lost). -/
+def sendOn (s : St) (c : Conn) (m : Nat) (staleOk : Bool) : St × Bool :=
+  if c.alive then ({ s with delivered := s.delivered ++ [(c.peer, m)] }, true) else (s, staleOk)
+
+inductive Res where
+  | ok
+  | err
+  deriving DecidableEq, Repr
+
+/-- the loop `for _, msg := range msgs` of `Router.Send` (router.go:336-353). Note that the
+connection opened by the retry is a new local variable: the next message starts on `c` again. -/
+def sendMsgs (s : St) (p : Peer) (c : Conn) (staleOk : Bool) : List Nat → St × Res
+  | [] => (s, .ok)
+  | m :: ms =>
+    let r := sendOn s c m staleOk
+    if r.2 then sendMsgs r.1 p c staleOk ms
+    else
+      match connect r.1 p with
+      | (s2, none) => (s2, .err)
+      | (s2, some c') =>
+        let r' := sendOn s2 c' m staleOk
+        if r'.2 then sendMsgs r'.1 p c staleOk ms else (r'.1, .err)
+
+/-- `Router.Send(e, msgs...)` to another server -/
+def send (s : St) (p : Peer) (msgs : List Nat) (staleOk : Bool) : St × Res :=
+  if msgs.isEmpty then (s, .err)       -- "need to send at least one message"
+  else match firstConn s p with
+    | some c => sendMsgs s p c staleOk msgs
+    | none =>
+      match connect s p with
+      | (s1, none) => (s1, .err)
+      | (s1, some c) => sendMsgs s1 p c staleOk msgs
+
+/-- `removeConnection` (router.go:383-403): inside the peer's slice the entry is overwritten by the
+last one and the slice is shortened -/
+def removeSwap (l : List Conn) (c : Conn) : List Conn :=
+  let mine := l.filter (·.peer == c.peer)
+  let others := l.filter (·.peer != c.peer)
+  match mine.reverse with
+  | [] => l
+  | last :: _ =>
+    let mine' := (mine.map fun x => if x.id == c.id then last else x).dropLast
+    others ++ (if mine.any (·.id == c.id) then mine' else mine)
+
+inductive Act where
+  /-- the process of the peer ends: nothing listens any more, its connections lose their far end -/
+  | peerDown (p : Peer)
+  /-- a (new) process listens at the peer's address; old connections stay dead -/
+  | peerUp (p : Peer)
+  /-- the receive loop of connection `cid` gets a fatal error (closed / EOF / timeout / unknown) -/
+  | detect (cid : Nat)
+  /-- the peer opens a connection to us -/
+  | accept (p : Peer)
+  /-- `AddErrorHandler` -/
+  | addHandler (h : Nat)
+  /-- `Router.Send` -/
+  | send (p : Peer) (msgs : List Nat) (staleOk : Bool)
+  deriving DecidableEq, Repr
+
+def step (s : St) : Act → St × Res
+  | .peerDown p =>
+    ({ s with up := s.up.filter (· != p),
+              conns := s.conns.map fun c => if c.peer == p then { c with alive := false } else c }, .ok)
+  | .peerUp p => ({ s with up := if s.up.contains p then s.up else s.up ++ [p] }, .ok)
+  | .detect cid =>
+    match s.conns.find? (·.id == cid) with
+    | none => (s, .ok)
+    | some c =>
+      -- triggerConnectionErrorHandlers(remote), then the deferred removeConnection(remote, c)
+      ({ s with calls := s.calls ++ s.handlers.map (·, c.peer), conns := removeSwap s.conns c }, .ok)
+  | .accept p =>
+    if s.up.contains p then
+      ({ s with conns := s.conns ++ [{ id := s.next, peer := p, alive := true }], next := s.next + 1 }, .ok)
+    else (s, .ok)
+  | .addHandler h => ({ s with handlers := s.handlers ++ [h] }, .ok)
+  | .send p msgs staleOk => send s p msgs staleOk
+
+def run (s : St) : List Act → St
+  | [] => s
+  | a :: l => run (step s a).1 l
+
+/-! ### the send entry points and how each passes the error on -/
+
+inductive Entry where
+  /-- `Router.Send` / `Server.Send` (the server embeds the router) -/
+  | routerSend
+  /-- `Context.SendRaw` (context.go:60-68) — returned nil whatever happened before the fix -/
+  | ctxSendRaw
+  /-- `Overlay.SendToTreeNode` (overlay.go:602-636) and `TreeNodeInstance.SendTo` (treenode.go:150-176) -/
+  | sendTo
+  /-- `SendToParent` (nothing to do at the root) -/
+  | sendToParent
+  /-- `SendToChildren`: one after the other, stops at the first error -/
+  | sendToChildren
+  /-- `SendToChildrenInParallel`, `Multicast`, `Broadcast`: all destinations, errors collected -/
+  | sendToAll
+  deriving DecidableEq, Repr
+
+/-- the entry point run over its destinations, given what the router's `Send` answers for each:
+the number of errors handed to the caller (0 = success) and the destinations actually tried -/
+def entry (e : Entry) (dests : List Peer) (res : Peer → Res) : Nat × List Peer :=
+  match e with
+  | .routerSend | .ctxSendRaw | .sendTo | .sendToParent =>
+    match dests with
+    | [] => (0, [])                        -- `SendToParent` at the root
+    | d :: _ => ((if res d = .err then 1 else 0), [d])
+  | .sendToChildren =>
+    let rec go : List Peer → Nat × List Peer
+      | [] => (0, [])
+      | d :: l => if res d = .err then (1, [d]) else let r := go l; (r.1, d :: r.2)
+    go dests
+  | .sendToAll => ((dests.filter (fun d => res d = .err)).length, dests)
+
+/-! ### line-protocol driver -/
 namespace Drv
-/-- line-protocol driver state for C09 -/
-abbrev State := Unit
-def init : State := ()
-/-- one line in (tokens after the property prefix), new state and one line out -/
-def step (s : State) (_toks : List String) : State × String := (s, "bad-op")
+
+abbrev State := St
+def init : State := {}
+
+def showRes : Res → String
+  | .ok => "ok"
+  | .err => "err"
+
+def parseEntry : String → Option Entry
+  | "router" => some .routerSend
+  | "raw" => some .ctxSendRaw
+  | "sendto" => some .sendTo
+  | "parent" => some .sendToParent
+  | "children" => some .sendToChildren
+  | "parallel" | "multicast" | "broadcast" => some .sendToAll
+  | _ => none
+
+/-- an entry point over the current state: every destination tried gets one `Router.Send` of
+`n` messages (stale writes fail) -/
+def runEntry (s : St) (e : Entry) (dests : List Peer) (n : Nat) : St × Nat × Nat :=
+  -- sequential evaluation in destination order; the order does not matter for distinct peers
+  let rec go (s : St) (errs del : Nat) : List Peer → St × Nat × Nat
+    | [] => (s, errs, del)
+    | d :: l =>
+      let before := s.delivered.length
+      let r := send s d (List.replicate n 0) false
+      let errs' := if r.2 = .err then errs + 1 else errs
+      let del' := del + (r.1.delivered.length - before)
+      if r.2 = .err && e = .sendToChildren then (r.1, errs', del') else go r.1 errs' del' l
+  go s 0 0 dests
+
+/--
+* `open <tcp|local> <peers up, comma separated>` — fresh survivor; the named peers listen
+* `handler <h>` — register error handler number h
+* `send <entry> <dests> <n>` — the entry point towards these peers, n messages per `Router.Send`;
+  answer `<ok|err:k> delivered=<d>`
+* `down <p>` — the peer stops and every connection with it is detected; answer: the handler
+  invocations `h>p` in order
+* `up <p>` — something listens at the peer's address again
+* `conns <p>` — number of registered connections with p
+-/
+def step (s : State) (toks : List String) : State × String :=
+  match toks with
+  | ["open", tr, ups] =>
+    match (if tr = "tcp" then some Transport.tcp else if tr = "local" then some .loc else none), Util.natList ups with
+    | some t, some ups =>
+      ({ dpc := dialsPerConnect Generated.maxRetryConnect t, up := ups }, "ok")
+    | _, _ => (s, "bad-op")
+  | ["handler", h] =>
+    match h.toNat? with
+    | some h => ((C09.step s (.addHandler h)).1, "ok")
+    | none => (s, "bad-op")
+  | ["send", e, ds, n] =>
+    match parseEntry e, Util.natList ds, n.toNat? with
+    | some e, some ds, some n =>
+      if n = 0 then (s, "bad-op") else
+      let r := runEntry s e ds n
+      (r.1, (if r.2.1 = 0 then "ok" else s!"err:{r.2.1}") ++ s!" delivered={r.2.2}")
+    | _, _, _ => (s, "bad-op")
+  | ["down", p] =>
+    match p.toNat? with
+    | some p =>
+      let s1 := (C09.step s (.peerDown p)).1
+      let ids := (s1.conns.filter (·.peer == p)).map (·.id)
+      let s2 := ids.foldl (fun st cid => (C09.step st (.detect cid)).1) s1
+      let newCalls := s2.calls.drop s.calls.length
+      ({ s2 with calls := [] },
+        if newCalls.isEmpty then "-" else ",".intercalate (newCalls.map fun (h, q) => s!"{h}>{q}"))
+    | none => (s, "bad-op")
+  | ["up", p] =>
+    match p.toNat? with
+    | some p => ((C09.step s (.peerUp p)).1, "ok")
+    | none => (s, "bad-op")
+  | ["conns", p] =>
+    match p.toNat? with
+    | some p => (s, toString (s.conns.filter (·.peer == p)).length)
+    | none => (s, "bad-op")
+  | _ => (s, "bad-op")
+
 end Drv
 
 end C09
